@@ -77,6 +77,9 @@ def jobs(tier):
     for version in (1, 2, 3):       # identical copies of one file in the tree
         out.append(("v%d.flat2.P16384.identical-files" % version, "job_recheck",
                     dict(prop="C05", version=version, shape="flat2", P=16384, K=2, dmg=["intact", "intact"], source="ref", dup=True)))
+    for version in (1, 2, 3):       # legal names that contain '..'
+        out.append(("v%d.nested3~dotdot.P16384.intact" % version, "job_recheck",
+                    dict(prop="C05", version=version, shape="nested3~dotdot", P=16384, K=1, dmg=["intact"] * 3, source="ref")))
     out.extend(rk.matrix_rows(tier, "C05"))
     for cpath in ("root", "parent"):     # a v1 file list that is not grouped by directory (as other tools write them)
         out.append(("v1.ungrouped3.P16384.%s.ref" % cpath, "job_recheck",
